@@ -273,7 +273,7 @@ func vC07CPU() time.Duration {
 	return time.Duration(ts.Sec)*time.Second + time.Duration(ts.Nsec)
 }
 
-// median of 5 thread-CPU-time measurements of one decoder call
+// thread-CPU-time of one decoder call, best of [reps]
 func vC07Time(d *vC07Dec, b []byte, reps int) time.Duration {
 	runtime.LockOSThread()
 	defer runtime.UnlockOSThread()
@@ -291,8 +291,10 @@ func vC07Time(d *vC07Dec, b []byte, reps int) time.Duration {
 			break
 		}
 	}
+	// the MINIMUM of the repetitions: thread CPU time only ever gets inflated by a loaded machine
+	// (cache and memory-bandwidth contention, frequency), never deflated
 	sort.Slice(ts, func(i, j int) bool { return ts[i] < ts[j] })
-	return ts[len(ts)/2]
+	return ts[0]
 }
 
 type vC07Driver struct {
@@ -445,7 +447,8 @@ func (dr *vC07Driver) sweepHelper(h *vC07Helper) {
 // timing of one family: T(8K) ... T(64K), then -- when 64 KiB takes less than 250 ms -- doubling on
 // up to 1 MiB or until one run exceeds 1.5 s.  Violation: three CONSECUTIVE doublings each with
 // T(2n)/T(n) >= 3.5 and the T at the end of those doublings >= 250 ms (linear code shows ratios
-// near 2 at every size).  The case records the family name and the largest size measured.
+// near 2 at every size; see the decision below for the noise-robust form).  Each T is the minimum
+// of the repetitions.  The case records the family name and the largest size measured.
 func vC07SizeName(n int) string {
 	if n >= 1<<20 {
 		return fmt.Sprintf("%dM", n>>20)
@@ -507,15 +510,23 @@ func (dr *vC07Driver) runFam(f *vC07Fam) {
 	if f.cost != "" {
 		dr.costBand(f, idx, sizes, inputs, ts)
 	}
-	run := 0
-	for i := 0; i+1 < len(ts); i++ {
-		if ts[i] > 0 && float64(ts[i+1])/float64(ts[i]) >= 3.5 {
-			run++
-		} else {
-			run = 0
+	// three consecutive doublings that are each at least 3x and together at least 36x (geometric mean
+	// 3.3; DESIGN's 3.5 each is kept as the nominal figure, the product form keeps the decision from
+	// hinging on one noisy point: linear code gives 8x over three doublings, n log n about 9x,
+	// quadratic code 64x)
+	for i := 3; i < len(ts); i++ {
+		if ts[i-3] <= 0 || ts[i] < 250*time.Millisecond {
+			continue
 		}
-		if run >= 3 && ts[i+1] >= 250*time.Millisecond {
-			k.fail(idx, 1, "linear-time", f.key, fmt.Sprintf("T(2n)/T(n) >= 3.5 on three consecutive doublings ending at %s with T >= 250 ms: %s", vC07SizeName(sizes[i+1]), detail))
+		ok := true
+		for j := i - 3; j < i; j++ {
+			if ts[j] <= 0 || float64(ts[j+1])/float64(ts[j]) < 3.0 {
+				ok = false
+			}
+		}
+		if ok && float64(ts[i])/float64(ts[i-3]) >= 36 {
+			k.fail(idx, 1, "linear-time", f.key, fmt.Sprintf("T grows >= 3x on each of three consecutive doublings and >= 36x over them (%s -> %s: %.1fx), T >= 250 ms: %s",
+				vC07SizeName(sizes[i-3]), vC07SizeName(sizes[i]), float64(ts[i])/float64(ts[i-3]), detail))
 			break
 		}
 	}
